@@ -4,6 +4,7 @@ import (
 	"go/token"
 	"go/types"
 	"sort"
+	"strings"
 
 	"golang.org/x/tools/go/ssa"
 
@@ -35,13 +36,13 @@ func libGlobals(c *core.Ctx) []*ssa.Global {
 
 // reviewed, intentionally mutable package state (each with its reason)
 var mutableGlobalsReviewed = map[string]string{
-	"uacp.connid":        "connection id counter, only touched through sync/atomic",
-	"debug.Enable":       "debug switch, documented as process-wide",
-	"debug.Logger":       "debug logger, documented as process-wide",
-	"debug.Flags":        "debug flags, process-wide",
-	"ua.eotypes":         "extension object registry behind its own mutex; registration is process-wide by design",
-	"ua.svcreg":          "service registry behind its own mutex",
-	"stats.stats":        "process-wide expvar statistics",
+	"uacp.connid":         "connection id counter, only touched through sync/atomic",
+	"debug.Enable":        "debug switch, documented as process-wide",
+	"debug.Logger":        "debug logger, documented as process-wide",
+	"debug.Flags":         "debug flags, process-wide",
+	"ua.eotypes":          "extension object registry behind its own mutex; registration is process-wide by design",
+	"ua.svcreg":           "service registry behind its own mutex",
+	"stats.stats":         "process-wide expvar statistics",
 	"server.defaultNodes": "read-only table",
 }
 
@@ -182,6 +183,57 @@ func c23(c *core.Ctx) {
 			}
 		}
 	}
+	// 2b. at run time (connect, handshake, session set-up, …) nothing writes through a pointer that may still be the
+	// shared default: a store through, or a receiver-mutating method call on, a pointer loaded from a tainted field
+	c.Rule("C23.runtime", "outside configuration too, no library function writes through a pointer loaded from a field that may hold a package-level default (uacp.Conn.ack may be &DefaultClientACK when a Dialer has no ClientACK): neither a field store nor a call of a method that writes its receiver (Decode). A connection that negotiates into the shared object changes the defaults of every later client", 1)
+	{
+		mutates := receiverMutators(all)
+		var tf []string
+		for fl, g := range taintedField {
+			tf = append(tf, ssax.FieldString(fl)+" ← "+g.Pkg.Pkg.Name()+"."+g.Name())
+		}
+		sort.Strings(tf)
+		c.Note("fields that may hold a package-level default: " + strings.Join(tf, "; "))
+		n := 0
+		for _, f := range all {
+			if f.Name() == "init" || scope[f] {
+				continue
+			}
+			for _, b := range f.Blocks {
+				for _, in := range b.Instrs {
+					var base ssa.Value
+					what := ""
+					switch x := in.(type) {
+					case *ssa.Store:
+						if fa, ok := x.Addr.(*ssa.FieldAddr); ok {
+							base, what = fa.X, "store "+ssax.Path(x.Addr)
+						} else if ia, ok := x.Addr.(*ssa.IndexAddr); ok {
+							base, what = ia.X, "store "+ssax.Path(x.Addr)
+						}
+					case *ssa.MapUpdate:
+						base, what = x.Map, "map update "+ssax.Path(x.Map)
+					case ssa.CallInstruction:
+						sf := x.Common().StaticCallee()
+						if sf == nil || !mutates[sf] || len(x.Common().Args) == 0 {
+							continue
+						}
+						base, what = x.Common().Args[0], "call "+fname(sf)+" (writes its receiver)"
+					}
+					if base == nil {
+						continue
+					}
+					ld := loadedField(base)
+					if ld.f == nil || taintedField[ld.f] == nil {
+						continue
+					}
+					n++
+					g := taintedField[ld.f]
+					c.Ob("C23.runtime", fname(ssax.Outermost(f))+"·"+what, pos(c, in), false, "writes through "+ssax.FieldString(ld.f)+", which may hold the pointer of global "+g.Pkg.Pkg.Name()+"."+g.Name()+" (assigned at "+pos(c, taintSite[ld.f])+")")
+				}
+			}
+		}
+		c.Ob("C23.runtime", "library·no write through a possibly shared default", c.P.Pos(all[0].Pos()), n == 0, "writes through tainted fields outside configuration: "+itoa(n))
+	}
 	// 3. freshness of the defaults placed into a new config
 	for _, name := range []string{"opcua.DefaultDialer", "opcua.DefaultClientConfig", "opcua.DefaultSessionConfig", "opcua.newConfig"} {
 		var f *ssa.Function
@@ -212,4 +264,40 @@ func c23(c *core.Ctx) {
 		c.Ob("C23.fresh", name+"·defaults are fresh allocations", c.P.Pos(f.Pos()), bad == "", "shared pointer placed into a fresh configuration: "+bad)
 	}
 	_ = token.ADD
+}
+
+// receiverMutators: methods with a pointer receiver that store to a field of the receiver (directly or through a
+// method of the same receiver they call).
+func receiverMutators(all []*ssa.Function) map[*ssa.Function]bool {
+	m := map[*ssa.Function]bool{}
+	for changed := true; changed; {
+		changed = false
+		for _, f := range all {
+			if m[f] || f.Signature.Recv() == nil || len(f.Params) == 0 {
+				continue
+			}
+			if _, ok := f.Signature.Recv().Type().(*types.Pointer); !ok {
+				continue
+			}
+			recv := f.Params[0]
+			for _, b := range f.Blocks {
+				for _, in := range b.Instrs {
+					switch x := in.(type) {
+					case *ssa.Store:
+						if fa, ok := x.Addr.(*ssa.FieldAddr); ok && ssax.Strip(fa.X) == ssa.Value(recv) {
+							m[f] = true
+						}
+					case ssa.CallInstruction:
+						if sf := x.Common().StaticCallee(); sf != nil && m[sf] && len(x.Common().Args) > 0 && ssax.Strip(x.Common().Args[0]) == ssa.Value(recv) {
+							m[f] = true
+						}
+					}
+				}
+			}
+			if m[f] {
+				changed = true
+			}
+		}
+	}
+	return m
 }
